@@ -186,6 +186,13 @@ func (p *Prog) isDescendingSort(fn *ssa.Function) bool {
 				}
 				continue
 			}
+			if name == "sort.Stable" || name == "sort.Sort" {
+				// sort.Interface: descending iff Less(i, j) is x[j] < x[i] on the receiver
+				if p.isDescendingInterface(call.Call.Args[0]) {
+					return true
+				}
+				continue
+			}
 			if name != "sort.SliceStable" && name != "sort.Slice" {
 				continue
 			}
@@ -914,4 +921,45 @@ func (p *Prog) prepareFn() *ssa.Function {
 		return found[0]
 	}
 	return nil
+}
+
+// isDescendingInterface: v is a slice converted to a private named slice type whose Less(i, j)
+// reports x[j] < x[i] (and whose Swap exchanges the two elements, Len is the length).
+func (p *Prog) isDescendingInterface(v ssa.Value) bool {
+	if mi, ok := v.(*ssa.MakeInterface); ok {
+		v = mi.X
+	}
+	nt, ok := v.Type().(*types.Named)
+	if !ok {
+		return false
+	}
+	for i := 0; i < nt.NumMethods(); i++ {
+		m := nt.Method(i)
+		if m.Name() != "Less" {
+			continue
+		}
+		fn := p.SSA.FuncValue(m)
+		if fn == nil || len(fn.Params) != 3 {
+			return false
+		}
+		for _, s := range p.resultSyms(fn, 0) {
+			if s.Op != "bin" {
+				return false
+			}
+			idx := func(x *Sym) string {
+				x = x.StripConv()
+				if x.Op == "index" && x.Args[1].Op == "param" && x.Args[0].StripConv().Op == "param" {
+					return x.Args[1].Name
+				}
+				return ""
+			}
+			pi, pj := fn.Params[1].Name(), fn.Params[2].Name()
+			l, r := s.Args[0], s.Args[1]
+			if (s.Name == "<" && idx(l) == pj && idx(r) == pi) || (s.Name == ">" && idx(l) == pi && idx(r) == pj) {
+				return true
+			}
+			return false
+		}
+	}
+	return false
 }
